@@ -5,7 +5,7 @@ SPECS = [
     ("cvrp", "CVRP"), ("cvrp", "CVRPDecimal"), ("tsp", "TSP"),
     ("atsp", "ATSP"), ("pdp", "PDP"), ("op", "OP"), ("op", "OPBoundary"),
     ("cvrptw", "CVRPTW"), ("svrp", "SVRP"), ("pctsp", "PCTSP"), ("pctsp", "PCTSPReq"), ("spctsp", "SPCTSP"), ("sdvrp", "SDVRP"),
-    ("mtvrp", "MTVRP"), ("fjsp", "FJSP"), ("fjsp", "JSSP"),
+    ("mtvrp", "MTVRP"), ("mtvrp", "MTVRPDecimal"), ("fjsp", "FJSP"), ("fjsp", "JSSP"),
     ("mpdp", "MPDPStart"),
     ("mtsp", "MTSP"), ("mdcpdp", "MDCPDP"), ("mdcpdp", "MDCPDPGen"), ("mdcpdp", "MDCPDPHet"),
     ("smtwtp", "SMTWTP"), ("ffsp", "FFSP"), ("ffsp", "FFSPNoFlatten"),
